@@ -47,10 +47,23 @@ def num_cases(rng, tier):
              (W64 - 1) << 64, (1 << 192) + W64, 3 * W128, 5 * 10 ** 18 + W64 * 7, 10 ** 18 * W64]
     limb_pairs = [(a, b) for a in limbv for b in (2, 3, 1000, D, W128, 7 * D + 1)]
     limb_pairs += [(b, a) for (a, b) in limb_pairs]
+    # products whose raw 256-bit value sits in a chosen residue class modulo 10^18 (exactly representable, one atomic
+    # unit above, one below: ...000, ...001, ...999) at several magnitudes up to the top of the range: where a rescaling
+    # by 10^18 that is not the exact floor (reciprocal multiplication, rounding) shows.  Always kept (C08-agent6 was
+    # caught in the quick tier only when the sample happened to contain (10^77 - 1, 1)).
+    residue_pairs = [(10 ** k + e, 1) for k in (18, 19, 38, 39, 58, 59, 76, 77) for e in (-1, 0, 1)]
+    for top in (W256 - 1, (W256 * 3) // 5, (W256 * 7) // 10, 1 << 255, (1 << 255) - 1, 1 << 200, W128 * D):
+        for r in (0, 1, D - 1, D // 2):
+            x0 = top - ((top - r) % D)
+            for b in (1, 3, 7, 9, D + 1, 10 ** 9 + 7):
+                x = x0 - ((x0 * pow(D, -1, b)) % b) * D      # the nearest x below x0 in the residue class that b divides
+                if x > 0 and x % b == 0:
+                    residue_pairs.append((x // b, b))
+    residue_pairs += [(b, a) for (a, b) in residue_pairs]
     if tier == "quick":
-        pairs = zero_pairs + limb_pairs + rng.sample(pairs, 260)
+        pairs = zero_pairs + limb_pairs + residue_pairs + rng.sample(pairs, 260)
     else:
-        pairs = zero_pairs + limb_pairs + pairs
+        pairs = zero_pairs + limb_pairs + residue_pairs + pairs
     cross = [(a, b) for a in sub for b in sub]
     if len(cross) > npairs * 4:
         cross = rng.sample(cross, npairs * 4)
